@@ -221,13 +221,18 @@ def run_case(ctx, g, rng):
                 violation(["C15"], "ref:eq-hash-order", "reference-tuple-is-not-a-plain-tuple", value=repr(o))
     probe.note_key(f"algebra:mixed{int(mixed)}:n{len(objs)}", mixed)
     # converter as validation context
-    d = ":"
+    # "all converters used as validation context": the converter's own CURIE delimiter is its own business - references
+    # are written with ':' (or the separator given) whatever the converter uses for its CURIEs
+    d = rng.choice([":", ":", "/", "::", "|", "_"])
     recs = gen.records(rng, d, 1, 3)
     if rng.random() < 0.4 and not any("" in spec.all_p(r) for r in recs):
         recs[0] = recs[0]._replace(psyn=recs[0].psyn + ("",)) if rng.random() < 0.5 else recs[0]._replace(prefix="", psyn=recs[0].psyn + (recs[0].prefix,))
-    conv = api.Converter([gen.mk_record(api, r) for r in recs])
+    conv, how = gen.build(api, recs, d, rng)
+    S.counters[f"wl:context-converter-delimiter:{d}"] += 1
     sp = spec.SpecConverter(recs, d)
     for p in [x for r in recs for x in spec.all_p(r)] + ["nope", "zz"]:
+        if ":" in p:
+            continue  # the property's quantifier: prefixes without the separator
         want = sp.standardize_prefix(p)
         ways = [
             ("from_curie", lambda: api.Reference.from_curie(f"{p}:1", converter=conv)),
